@@ -63,6 +63,76 @@ theorem query_injective (a b : List Bytes) (ha : Small a) (hb : Small b)
   by_cases h1 : composeQuery a = [] <;> by_cases h2 : composeQuery b = [] <;> simp [h1, h2] at h ⊢
   exact h
 
+/-- (P1, string → options, coap_path_into_optlist) on every path string whose escapes are well formed the
+transcribed algorithm yields exactly RFC 3986 / RFC 7252 §6.4's segments: cut at '?' / '#', split at '/',
+percent-decoded once, dot segments resolved. -/
+theorem split_path_eq_spec (input : Bytes) (segs : List Bytes) (h : Spec.Uri.splitPath input = some segs) :
+    pathOpts input = R.ok segs := pathOpts_eq input segs h
+
+/-- the same for coap_query_into_optlist: cut at '#', split at '&', percent-decoded once -/
+theorem split_query_eq_spec (input : Bytes) (segs : List Bytes) (h : Spec.Uri.splitQuery input = some segs) :
+    queryOpts input = R.ok segs := queryOpts_eq input segs h
+
+/-- (P2) '.' and '..' — written literally or as %2E — are resolved and never emitted as a Uri-Path value -/
+theorem dot_segments_never_emitted (input : Bytes) (segs : List Bytes) (h : Spec.Uri.splitPath input = some segs) :
+    pathOpts input = R.ok segs ∧ dot1 ∉ segs ∧ dot2 ∉ segs := by
+  refine ⟨pathOpts_eq input segs h, ?_⟩
+  unfold Spec.Uri.splitPath at h
+  cases hd : decodeAll (rawSegs pathStop pathSep input) with
+  | none => simp [hd] at h
+  | some ds =>
+    simp [hd] at h
+    rw [← h]
+    exact resolve_no_dots ds [] (by simp)
+
+theorem allEncSafe : Safe (fun _ => false) pathStop pathSep 0x2f where
+  plain_ok := by intro c h; cases h
+  pct_ok := by decide
+  hex_ok := by decide
+  sep_stop := by decide
+  sep_sep := by decide
+  plain_pct := rfl
+
+/-- (P2) percent-escapes are decoded exactly once: encode *every* byte of an arbitrary value (which may itself
+contain '%', '/', "%41" …) and the splitter returns that value — not a second decoding of it, not a split of it. -/
+theorem decode_once (seg : Bytes) (h1 : seg ≠ dot1) (h2 : seg ≠ dot2) :
+    pathOpts (pctEncode (fun _ => false) seg) = R.ok [seg] := by
+  apply pathOpts_eq
+  have := recover allEncSafe [seg]
+  simp [joinSep] at this
+  unfold Spec.Uri.splitPath
+  rw [this]
+  have := resolve_id [seg] [] (by simp; exact ⟨fun e => h1 e.symm, fun e => h2 e.symm⟩)
+  simp [resolve, this]
+
+/-- (P2) the reconstructed path feeds back to the same options (D5: no segment is "." or "..") -/
+theorem path_feeds_back (segs : List Bytes) (hs : Small segs) (hne : segs ≠ []) (hd : dot1 ∉ segs ∧ dot2 ∉ segs) :
+    ∃ str, getUriPath segs = R.ok str ∧ pathOpts str = R.ok segs := by
+  refine ⟨composePath segs, get_uri_path_eq_spec segs hs, ?_⟩
+  apply pathOpts_eq
+  have := recover pathSafe segs
+  simp only [hne, if_false] at this
+  unfold Spec.Uri.splitPath composePath
+  rw [this]
+  have := resolve_id segs [] hd
+  simp [resolve, this]
+
+/-- (P2) the reconstructed query feeds back to the same options -/
+theorem query_feeds_back (segs : List Bytes) (hs : Small segs) (hne : segs ≠ []) :
+    ∃ str, getQuery segs = R.ok (if str = [] then none else some str) ∧ queryOpts str = R.ok segs := by
+  refine ⟨composeQuery segs, get_query_eq_spec segs hs, ?_⟩
+  apply queryOpts_eq
+  have := recover querySafe segs
+  simp only [hne, if_false] at this
+  unfold Spec.Uri.splitQuery composeQuery
+  exact this
+
+example : pathOpts [0x25, 0x32, 0x35, 0x34, 0x31] = R.ok [[0x25, 0x34, 0x31]] := by decide   -- "%2541" → "%41", not "A"
+example : pathOpts [0x61, 0x2f, 0x2e, 0x2e, 0x2f, 0x25, 0x32, 0x65, 0x2f, 0x62] = R.ok [[0x62]] := by decide   -- "a/../%2e/b"
+example : Spec.Uri.splitPath [0x61, 0x2f, 0x25, 0x25, 0x32, 0x45] = none := by decide            -- "a/%%2E" is malformed …
+-- … and no longer handled as ".." (fix 8c37620); what a malformed escape turns into is left open (D16a)
+example : pathOpts [0x61, 0x2f, 0x25, 0x25, 0x32, 0x45] = R.ok [[0x61], [0x52, 0x45]] := by decide
+
 example : getQuery [[0x61, 0x26, 0x62]] = R.ok (some [0x61, 0x25, 0x32, 0x36, 0x62]) := by decide
 example : getQuery [[0x61], [0x62]] = R.ok (some [0x61, 0x26, 0x62]) := by decide
 example : getQuery [[], [0x61]] = R.ok (some [0x26, 0x61]) := by decide
